@@ -166,3 +166,49 @@ Example window_example :
   fst (win_run 2 4 w0 [WRead 1; WRead (-5); WSeek (-1) 2; WWrite [7;7;7]; WSeek 0 0; WRead (-1)])
   = [RBytes [1]; RBytes [2;3;4]; RInt 3; RInt 1; RInt 0; RBytes [1;2;3;7]].
 Proof. vm_compute. reflexivity. Qed.
+
+(* SubsectionIO is itself a lawful file whose contents are the window slice: crypto
+   wrappers stacked on a window therefore inherit everything proved over lawful files *)
+From Pyctr Require Import Env.FileIface.
+
+Definition window_ops (off sz : Z) : fileops window :=
+  mkOps (win_read off sz) (win_seek sz) win_tell (win_write off sz).
+
+Definition win_content (off sz : Z) (w : window) : list Z := slice (fdata (wbase w)) off sz.
+
+Lemma window_lawful off sz :
+  0 <= off -> 0 <= sz ->
+  lawful (window_ops off sz) (win_inv off) (win_content off sz) wseek.
+Proof.
+  intros Hoff Hsz. constructor.
+  - intros s [H _]. exact H.
+  - reflexivity.
+  - intros s n Hinv. cbn [window_ops f_read].
+    pose proof (step_ok off sz Hoff Hsz s (WRead n) Hinv) as P. cbn [win_step] in P.
+    destruct (win_read off sz s n) as [[b s']|e] eqn:E.
+    + destruct P as [(P1 & P2 & P3 & P4 & P5 & P6) Pinv].
+      exists b, s'. split; [reflexivity|]. split; [exact Pinv|].
+      destruct Hinv as [Hsk Hb]. unfold win_content.
+      set (B := fdata (wbase s)) in *. set (sk := wseek s) in *.
+      pose proof (len_nonneg b) as Hlb.
+      assert (Hcl : len (slice B off sz) = Z.min (len B) (off + sz) - off) by (rewrite len_slice by lia; lia).
+      repeat split.
+      * rewrite slice_slice by lia.
+        destruct (Z.eq_dec (len b) 0) as [E0|Hne].
+        -- rewrite E0. rewrite Z.min_l by lia. rewrite slice_0.
+           destruct b; [reflexivity|]. rewrite len_cons in E0. pose proof (len_nonneg b). lia.
+        -- assert (b <> []) as Hbne by (intros ->; rewrite len_nil in Hne; lia).
+           specialize (P4 Hbne). rewrite Z.min_l by lia. exact P3.
+      * rewrite P6, Hcl. unfold read_count. destruct (n <? 0) eqn:?; lia.
+      * now rewrite P1.
+      * exact P2.
+    + destruct P as [P _]. cbn [step_contract] in P. contradiction.
+  - intros s o w Hinv. cbn [window_ops f_seek].
+    pose proof (step_ok off sz Hoff Hsz s (WSeek o w) Hinv) as P. cbn [win_step] in P.
+    destruct (win_seek sz s o w) as [[p s']|e]; [|exact I].
+    destruct P as [(P1 & P2 & _) Pinv]. unfold win_content. rewrite P1. auto.
+  - intros s Hinv. cbn [window_ops f_seek]. unfold win_seek, win_seek_pos. cbn.
+    rewrite Z.min_l by lia. eauto.
+  - intros s d Hinv. cbn [window_ops f_seek]. unfold win_seek, win_seek_pos. cbn.
+    rewrite Z.max_comm. eauto.
+Qed.
